@@ -62,6 +62,10 @@ type sCase struct {
 	// NoDemand: the property text alone does not decide this case (a Conflicts
 	// record older than MaxTraceableBlocks): verdicts are counted, not judged.
 	NoDemand string
+	// Unsigned / Signers: what the fee calculator was run on, so that it can be
+	// run again on another node in the same chain state (ext_rebuilt_test.go)
+	Unsigned *transaction.Transaction
+	Signers  []*acct
 }
 
 // valid decides from the property text whether content c may enter the pool
